@@ -193,23 +193,14 @@ Record outcome := mkOut {
 Definition full_title (cls title : list Z) : list Z :=
   match cls with [] => title | _ => [91] ++ cls ++ [93; 32] ++ title end.
 
-(* isTnAnnounce: bytes.Equal(title[:len(TN_ANNOUNCE_BIG5)], TN_ANNOUNCE_BIG5) — the slice expression panics
-   when the capacity of title is below the tag length; the harness builds titles with cap = len *)
-Definition is_tn_announce (title : list Z) : res bool :=
-  match sliceZ title 0 (lenZ TN_ANNOUNCE_BIG5) with
-  | Some p => Ok (bytes_eqb p TN_ANNOUNCE_BIG5)
-  | None => Crash
-  end.
+(* isTnAnnounce: bytes.HasPrefix(title, TN_ANNOUNCE_BIG5) — total for every title, also one shorter than the tag *)
+Definition is_tn_announce (title : list Z) : bool := has_prefix TN_ANNOUNCE_BIG5 title.
 
-(* tnSafeStrip; [allowed_by_role] = the part of isTnAllowed that does not look at the title *)
-Definition tn_safe_strip (allowed_by_role : bool) (title : list Z) : res (list Z) :=
-  if ALLOW_FREE_TN_ANNOUNCE || allowed_by_role then Ok title
-  else match is_tn_announce title with
-       | Ok true => Ok (skipn (length TN_ANNOUNCE_BIG5) title)
-       | Ok false => Ok title
-       | Crash => Crash
-       | Hang => Hang
-       end.
+(* tnSafeStrip; [allowed_by_role] = the part of isTnAllowed that does not look at the title. The slice
+   title[len(tag):] is only taken when the tag is a prefix, so it cannot go out of range. *)
+Definition tn_safe_strip (allowed_by_role : bool) (title : list Z) : list Z :=
+  if ALLOW_FREE_TN_ANNOUNCE || allowed_by_role || negb (is_tn_announce title) then title
+  else skipn (length TN_ANNOUNCE_BIG5) title.
 
 (* ------------------------------------------------------------------ article text *)
 Definition header (u : user) (b : board) (title : list Z) (now : Z) : list Z :=
@@ -259,10 +250,7 @@ Definition post_on (role_ok : bool) (u : user) (b : board) (q : req) : res (user
       let fn1 := copy_into (repeat 0 (Z.to_nat ptttype.FNLEN)) name1 in
       let date1 := copy_into (repeat 0 6) (cdatemd t1) in
       let fs1 := fs_set name1 [] (b_files b) in
-      match tn_safe_strip role_ok (full_title (q_class q) (q_title q)) with
-      | Crash => Crash
-      | Hang => Hang
-      | Ok title =>
+      let title := tn_safe_strip role_ok (full_title (q_class q) (q_title q)) in
       let fs2 := fs_write0 name1 (article_text u b title (q_nowH q) (q_lines q) (q_ip q)) fs1 in
       match stamp fs2 (q_nowB q) rnds1 with
       | None => Hang
@@ -279,7 +267,6 @@ Definition post_on (role_ok : bool) (u : user) (b : board) (q : req) : res (user
           Ok (mkUser (u_id u) (u_nick u) (u_priv u) (wrapu32 (u_numposts u + 1)),
               mkBoard (b_name b) (b_mods b) dir' fs5 total',
               mkOut (lenZ (b_dir b) / lenZ entry + 1) fn2 (fn_to_articleid fn2) entry)
-      end
       end
   end.
 
